@@ -117,6 +117,10 @@ func buildC01(tier string, seed int64) *Family {
 	for _, x := range []string{"@*", "@a", "//@*", "//@*/@*", "@*/..", "@*/../@*", "//@a/../@b", "@*/.", "../@*"} {
 		add(x, cfgA2)
 	}
+	// the node identity key used for de-duplication (ancestor steps, unions) is injective on
+	// position paths with one- and two-digit sibling indices (C11's identity kernel, element case)
+	insts = append(insts, &vm.Instance{ID: "identity kernel: element vs element on position paths with one- and two-digit indices", Harness: "H_identity",
+		Params: map[string]string{"abstracthash": "1", "kindx": "0", "kindy": "0"}})
 	fam := &Family{
 		Instances: withReuse(dedupInst(insts), 1),
 		Canaries: []*vm.Instance{
